@@ -102,6 +102,48 @@ def r1_never_raises(ctx, sym):
     line_offset_rule(ctx, sym, 'R1')
 
 
+def r1c_constants_complete(ctx, sym):
+    ctx.rule('R1c', "Tifa.visit_Constant (and get_pedal_type_from_value behind it), executed abstractly for a literal of "
+                    "every type CPython's parser can put into a Constant node (int, float, complex, str, bytes, bool, "
+                    "None, Ellipsis), with evaluate_type honouring its contract (it takes syntax-tree nodes): the "
+                    "visit completes with a pedal type")
+    from .. import symexec
+    mod = ctx.repo.module(VISITOR)
+    fn = mod.func('Tifa.visit_Constant')
+    ctx.analysed_function(mod, fn)
+    standins = {}
+    for (mname, q), ci in sym.classes.items():
+        if mname.startswith('pedal.types') and '.' not in q:
+            f = (lambda nm: (lambda *a, **k: Obj(nm, args=a, __cls__=nm)))(q)
+            f._fd_callable = True
+            f._fd_class = q
+            standins[q] = f
+
+    def evaluate_type(node):
+        if isinstance(node, Obj) and '__astclass__' in node.attrs:
+            return Obj('evaluated-type')
+        # what the real method does with anything else: NodeVisitor.generic_visit -> node._fields
+        raise Raised('AttributeError', "%r object has no attribute '_fields'" % type(node).__name__)
+
+    def b_isinstance(v, t):
+        ts = t if isinstance(t, tuple) else (t,)
+        if isinstance(v, Obj):
+            return any(getattr(x, '_fd_class', None) == v.attrs.get('__cls__') for x in ts)
+        return isinstance(v, tuple(x for x in ts if isinstance(x, type)))
+    for value in (1, 1.5, 1j, 's', b'b', True, None, Ellipsis):
+        me = symexec.self_obj(mod, 'Tifa', report=Obj('report'))
+        symexec.method(me, 'evaluate_type', evaluate_type)
+        fd = symexec.new_fd(sym, mod, calls={'isinstance': b_isinstance, 'type': lambda v: type(v)}, extra=standins)
+        node = Obj('Constant', value=value, kind=None)
+        node.attrs['__astclass__'] = 'Constant'
+        got, raised = symexec.run(fd, fn, [node], bound_self=me, what='Tifa.visit_Constant')
+        ctx.check(raised is None and isinstance(got, Obj), 'R1c', 'visit_Constant(%r)' % (value,), mod, fn,
+                  "visiting the literal %r %s" % (value, 'returns %r' % (got,) if raised is None else
+                                                   'raises %s (%s)' % (raised.kind, raised.detail)),
+                  "any program containing the literal %r (e.g. `data = %r`): TIFA ends with a system error instead of "
+                  "an analysis" % (value, value))
+
+
 def line_offset_rule(ctx, sym, rule):
     """The line offset used by TifaCore.locate() is the submission's offset for the file analysed (process_code
     executed abstractly for the main file, another known file and an unknown file)."""
@@ -348,6 +390,7 @@ def run(ctx):
     sym = Symbols(ctx.repo)
     r5b_builtin_lookup_copies(ctx, sym)
     r1_never_raises(ctx, sym)
+    r1c_constants_complete(ctx, sym)
     r2_idempotent(ctx, sym)
     r3_resolution(ctx, sym)
     r4_builtin_tables(ctx, sym)
